@@ -973,10 +973,10 @@ func configs(quick bool) []Cfg {
 		{Name: "2denom-1pre", MinDeposit: "3uband,2uusd", BaseFee: "", Route: "tss", Actors: ab,
 			Balances: map[string]string{"A": "4uband,3uusd", "B": "3uband,2uusd"},
 			Pre:      []PreTunnel{{"A", "min-1"}}, MaxTunnels: 2, MaxBlocks: 1, Depth: 4},
-		{Name: "failing-funded", MinDeposit: "3uband", BaseFee: "1uband", Route: "tss-funded", Actors: ab,
+		{Name: "delivering", MinDeposit: "3uband", BaseFee: "1uband", Route: "tss-ready", Actors: ab,
 			Balances: map[string]string{"A": "4uband", "B": "3uband"},
 			Pre:      []PreTunnel{{"A", "min"}}, MaxTunnels: 2, MaxBlocks: 2, Depth: 5},
-		{Name: "delivering", MinDeposit: "3uband", BaseFee: "1uband", Route: "tss-ready", Actors: ab,
+		{Name: "failing-funded", MinDeposit: "3uband", BaseFee: "1uband", Route: "tss-funded", Actors: ab,
 			Balances: map[string]string{"A": "4uband", "B": "3uband"},
 			Pre:      []PreTunnel{{"A", "min"}}, MaxTunnels: 2, MaxBlocks: 2, Depth: 5},
 	}
@@ -998,7 +998,7 @@ func configs(quick bool) []Cfg {
 	// last and until the frontier is empty (with the number of blocks bounded their reachable state
 	// space is finite), so that the global time cap cannot starve the other configurations
 	t := []Cfg{}
-	for _, i := range []int{2, 3} {
+	for _, i := range []int{2, 3, 4} {
 		c := q[i]
 		c.Depth += 2
 		c.MaxBlocks = 2
